@@ -223,8 +223,10 @@ def nonpass_fault_cases(tier):
     for si, shp in enumerate(shapes()):
         if si % (6 if quick else 2):
             continue
+        # (outcomes reached through execute_steps() are not used here: the reference does not model the step hooks of
+        # nested steps; C12's absorb_cases sweep covers a sub-step under hook faults with its own oracle)
         outs = ("fail", "error", "pending", "undefined") if quick else ("fail", "error", "pending", "undefined", "skip",
-                                                                      "failS", "pendingS", "xfail")
+                                                                      "failS", "pendingS", "failU")
         for nd, pr in P.deviations((shp,), 1, outcomes=outs):
             if not nd:
                 continue
